@@ -35,6 +35,14 @@ def _diag_quad(cls, p, th, d, lo, hi, zero_centre=False):
     return M.Quadratic(cls, p, np.diag(ev), _centre(th, d, zero_centre))
 
 
+def _linear(cls, p, th, d, amax):
+    a = np.zeros(d)
+    a[0] = 1.0
+    if d > 1:
+        a[:2] = _rot(2 * math.pi * th[1]) @ np.array([1.0, 0.0])
+    return M.LinearFunction(cls, p, amax * th[2] * (1 - 1e-12) * a)
+
+
 def _block(d, B, rest):
     """d x d matrix with the 2x2 block B on the first two coordinates and `rest` on the remaining diagonal."""
     A = np.zeros((d, d))
@@ -57,6 +65,8 @@ def member(cls, p, th, d):
         L = p["L"] if p["L"] < INF else mu + 10.0
         if sel < 0.6 or L <= mu:
             return _diag_quad(cls, p, th, d, mu, L)
+        if sel >= 0.8 and mu == 0:
+            return _linear(cls, p, th, d, 4.0)
         a = np.zeros(d)
         a[0] = 1.0
         if d > 1:
@@ -76,10 +86,14 @@ def member(cls, p, th, d):
     if cls == "StronglyConvexFunction":
         return _diag_quad(cls, p, th, d, p["mu"], p["mu"] + 10.0)
     if cls == "ConvexFunction":
-        if sel < 0.5:
+        if sel < 0.4:
             return _diag_quad(cls, p, th, d, 0.0, 10.0)
+        if sel >= 0.8:
+            return _linear(cls, p, th, d, 4.0)
         return M.NormFunction(cls, p, 0.2 + 3.0 * th[1], d)
     if cls == "ConvexLipschitzFunction":
+        if sel >= 0.8:
+            return _linear(cls, p, th, d, p["M"])
         return M.NormFunction(cls, p, p["M"] * (0.5 + 0.5 * th[1]), d)
     if cls == "ConvexSupportFunction":
         R = p.get("M", INF)
@@ -198,7 +212,7 @@ def corners(rng, n):
     out = []
     for k, sh in enumerate(shapes):
         out.append([0.0] + sh + [0.5, 0.5])
-        out.append([0.9] + sh + [0.5, 0.5])
+        out.append([0.7 if k % 2 else 0.9] + sh + [0.5, 0.5])
     rng.shuffle(out)
     while len(out) < n:
         out.append([rng.random() for _ in range(K)])
